@@ -2,14 +2,29 @@ import CelmaVerif.Base.Proto
 import CelmaVerif.Model.ProgArgs.Handler
 import CelmaVerif.Model.ProgArgs.Groups
 import CelmaVerif.Model.ProgArgs.GroupsCross
+import CelmaVerif.Model.ProgArgs.SubGroups
 /- line-protocol driver for the argument handler model (C01–C04, C07 sources, C08) -/
 open CelmaVerif CelmaVerif.Proto CelmaVerif.Keys CelmaVerif.ProgArgs
+
+/-- the `pa sub begin` … `pa sub end` block being read: the options of the sub-group ARGUMENT and the
+    sub handler's configuration (built exactly like the main one) -/
+structure SubB where
+  keySpec    : String
+  mandatory  : Bool := false
+  card       : Card := .unlimited       -- a TypedArgSubGroup has no cardinality unless one is installed
+  deprecated : Bool := false
+  cons       : List (CType × String) := []
+  cfg        : Cfg := { args := [] }
+  inits      : List DVal := []
 
 structure St where
   building : Cfg := { args := [] }
   inits    : List DVal := []
+  subs     : List SubDef := []          -- sub-group arguments of the main handler, definition order
+  subInits : List (List DVal) := []
+  cur      : Option SubB := none        -- open `pa sub` block
   bErr     : Option Exc := none        -- first set-up error of the configuration being built
-  cfg      : Option (Cfg × List DVal) := none
+  cfg      : Option (TCfg × TInits) := none
   prog     : Word := "prog".toList
 
 def word (hx : String) : Option Word := (hexDecode hx).map (·.map Char.ofNat)
@@ -120,6 +135,26 @@ def showDests (cfg : Cfg) (h : HState) : String := showPairs (cfg.args.zip h.arg
 def showGroupDests (cfg : Cfg) (am order : List Nat) (ms : List (Cfg × HState)) : String :=
   showPairs (groupDests cfg am order ms)
 
+/-- per sub-group argument `j` (definition order): ` | s<j>=<called>` and the sub handler's destinations -/
+def showSubs (subs : List SubDef) (sa : List ArgSt) (sh : List HState) : String :=
+  String.join (subs.zipIdx.map fun (d, j) =>
+    s!" | s{j}={if (sa.getD j default).hasValueSet then 1 else 0}" ++ showDests d.sub (sh.getD j default))
+
+def showT (cfg : TCfg) (t : TState) : String :=
+  showDests cfg.main t.main ++ showSubs cfg.subs t.subArgs t.subs
+
+/-- the same text from the members of a group: sub-group argument `j` lives in member `sm[j]`, at the position
+    `memberSubIdx sm m` gives it there -/
+def showGroupT (cfg : TCfg) (am sm order : List Nat) (ms : List (TCfg × TState)) : String :=
+  showGroupDests cfg.main am order (plainMembers ms) ++
+  String.join (cfg.subs.zipIdx.map fun (d, j) =>
+    let m := sm.getD j 0
+    let loc := ((memberSubIdx sm m).idxOf? j).getD 0
+    match (order.idxOf? m).bind (fun pos => ms[pos]?) with
+    | none => s!" | s{j}=?"
+    | some (_, t) =>
+      s!" | s{j}={if (t.subArgs.getD loc default).hasValueSet then 1 else 0}" ++ showDests d.sub (t.subs.getD loc default))
+
 def resLine {α : Type} (r : Res α) (f : α → String) : String :=
   match r with
   | .ok a => "ok" ++ f a
@@ -216,7 +251,38 @@ def step (s : St) (line : String) : St × String :=
   match toks with
   | ["case", _] => ({}, "ok")
   | "pa" :: "cfg" :: "begin" :: rest =>
-    ({ s with building := { args := [], abbr := (kv rest "abbr").getD "1" == "1" }, inits := [], bErr := none }, "ok")
+    ({ s with building := { args := [], abbr := (kv rest "abbr").getD "1" == "1" }, inits := [], subs := [],
+              subInits := [], cur := none, bErr := none }, "ok")
+  | "pa" :: "sub" :: "begin" :: rest =>
+    -- pa sub begin key=<spec> [mandatory] [card=…] [abbr=0|1] [deprecated] [req=<k1;k2>] [excl=<k1;k2>]
+    if s.cur.isSome then (s, "bad-op") else
+    match kv rest "key", (match kv rest "card" with | some c => parseCard c | none => some Card.unlimited) with
+    | some keySpec, some card =>
+      let cons := rest.filterMap (fun t =>
+        if t.startsWith "req=" then some (CType.required, (t.drop 4).toString)
+        else if t.startsWith "excl=" then some (CType.excluded, (t.drop 5).toString)
+        else none)
+      ({ s with cur := some { keySpec := keySpec, mandatory := rest.contains "mandatory", card := card,
+                              deprecated := rest.contains "deprecated", cons := cons,
+                              cfg := { args := [], abbr := (kv rest "abbr").getD "1" == "1" } } }, "ok")
+    | _, _ => (s, "bad-op")
+  | ["pa", "sub", "end"] =>
+    match s.cur with
+    | none => (s, "bad-op")
+    | some b =>
+      -- `main.addArgument( key, sub, desc)`: the key is parsed, the OTHER container (plain arguments) is asked
+      -- first, then the own table; then the settings of the sub-group argument
+      let tc : TCfg := { main := s.building, subs := s.subs }
+      let r : Res SubDef := do
+        let key ← Key.parse b.keySpec.toList
+        let _ ← addArgumentChecked (tc.subTable.map (fun e => (e.1, ()))) s.building.table key ()
+        let cs ← b.cons.mapM (fun (ct, spec) => do let ks ← parseKeys spec; pure (ct, ks))
+        pure { key := key, mandatory := b.mandatory, card := b.card, constraints := cs, deprecated := b.deprecated,
+               sub := b.cfg }
+      match r with
+      | .ok d => ({ s with cur := none, subs := s.subs ++ [d], subInits := s.subInits ++ [b.inits] }, "ok")
+      | .throw e => ({ s with cur := none, bErr := s.bErr <|> some e }, "ok")
+      | .oob _ => ({ s with cur := none, bErr := s.bErr <|> some .other }, "ok")
   | "pa" :: "arg" :: rest =>
     match parseArg rest with
     | none => (s, "bad-op")
@@ -226,11 +292,21 @@ def step (s : St) (line : String) : St × String :=
         let iv := match init with
           | some i => (parseInit d.kind i).getD (defaultDest d.kind)
           | none => defaultDest d.kind
-        -- Storage::addArgument: duplicate / mismatching keys are refused
-        match addArgument s.building.table d.key d with
-        | .ok _ => ({ s with building := { s.building with args := s.building.args ++ [d] }, inits := s.inits ++ [iv] }, "ok")
-        | .throw e => ({ s with bErr := s.bErr <|> some e }, "ok")
-        | .oob _ => ({ s with bErr := s.bErr <|> some .other }, "ok")
+        match s.cur with
+        | some b =>
+          -- an argument of the sub handler: its own table only (a sub handler of depth 2 has no sub-group arguments)
+          match addArgument b.cfg.table d.key d with
+          | .ok _ => ({ s with cur := some { b with cfg := { b.cfg with args := b.cfg.args ++ [d] }, inits := b.inits ++ [iv] } }, "ok")
+          | .throw e => ({ s with bErr := s.bErr <|> some e }, "ok")
+          | .oob _ => ({ s with bErr := s.bErr <|> some .other }, "ok")
+        | none =>
+          -- mArguments.addArgument( obj, key, &mSubGroupArgs): the sub-group arguments are asked first, then the
+          -- own table (duplicate / mismatching keys are refused)
+          let tc : TCfg := { main := s.building, subs := s.subs }
+          match addArgumentChecked s.building.table tc.subTable d.key d with
+          | .ok _ => ({ s with building := { s.building with args := s.building.args ++ [d] }, inits := s.inits ++ [iv] }, "ok")
+          | .throw e => ({ s with bErr := s.bErr <|> some e }, "ok")
+          | .oob _ => ({ s with bErr := s.bErr <|> some .other }, "ok")
       | .throw e => ({ s with bErr := s.bErr <|> some e }, "ok")
       | .oob _ => ({ s with bErr := s.bErr <|> some .other }, "ok")
   | ["pa", "glob", kind, spec] =>
@@ -241,14 +317,24 @@ def step (s : St) (line : String) : St × String :=
     | none => (s, "bad-op")
     | some gk =>
       if s.bErr.isSome then (s, "ok") else
-      match resolveGlob s.building gk spec with
-      | .ok ks => ({ s with building := { s.building with globals := s.building.globals ++ [{ kind := gk, keys := ks }] } }, "ok")
-      | .throw e => ({ s with bErr := some e }, "ok")
-      | .oob _ => ({ s with bErr := some .other }, "ok")
+      match s.cur with
+      | some b =>
+        match resolveGlob b.cfg gk spec with
+        | .ok ks => ({ s with cur := some { b with cfg := { b.cfg with globals := b.cfg.globals ++ [{ kind := gk, keys := ks }] } } }, "ok")
+        | .throw e => ({ s with bErr := some e }, "ok")
+        | .oob _ => ({ s with bErr := some .other }, "ok")
+      | none =>
+        match resolveGlob s.building gk spec with
+        | .ok ks => ({ s with building := { s.building with globals := s.building.globals ++ [{ kind := gk, keys := ks }] } }, "ok")
+        | .throw e => ({ s with bErr := some e }, "ok")
+        | .oob _ => ({ s with bErr := some .other }, "ok")
   | "pa" :: "cfg" :: "end" :: _ =>
+    if s.cur.isSome then (s, "bad-op") else
     match s.bErr with
     | some e => ({ s with cfg := none }, s!"throw {e.name}")
-    | none => ({ s with cfg := some (s.building, s.inits) }, s!"ok args={s.building.args.length}")
+    | none =>
+      ({ s with cfg := some ({ main := s.building, subs := s.subs }, { main := s.inits, subs := s.subInits }) },
+       s!"ok args={s.building.args.length}" ++ (if s.subs.isEmpty then "" else s!" subs={s.subs.length}"))
   | ["pa", "prog", hx] =>
     match word hx with
     | some w => ({ s with prog := w }, "ok")
@@ -279,8 +365,8 @@ def step (s : St) (line : String) : St × String :=
         let env := ((kv opts "env").bind word)
         -- an empty environment value is ignored by the handler
         let env := match env with | some [] => none | e => e
-        let r := evalArguments cfg (cfg.initState inits) { file := file, env := env } (s.prog :: ws)
-        (s, resLine r (showDests cfg))
+        let r := evalArgumentsT cfg (cfg.initState inits) { file := file, env := env } (s.prog :: ws)
+        (s, resLine r (showT cfg))
   | "pa" :: "gdef" :: rest =>
     -- pa gdef members=<n> -- <m>:<keyspec> ...   (members created 0..n-1, then the definitions in sequence)
     let opts := rest.takeWhile (· ≠ "--")
@@ -310,13 +396,15 @@ def step (s : St) (line : String) : St × String :=
           | [a, g] => (a, g)
           | [a] => (a, "")
           | _ => ("", "")
+        -- submembers=<one digit per sub-group argument>: the member that owns sub-group argument j
+        let sm := (kv opts "submembers").getD ""
         let digits (x : String) : List Nat := x.toList.map (fun c => c.toNat - 48)
         let order := match kv opts "order" with
           | some o => digits o
-          | none => (List.range 10).filter (fun d => (digits am).contains d || (digits gm).contains d)
-        if am.length ≠ cfg.args.length || gm.length ≠ cfg.globals.length then (s, "bad-op") else
-        let r := groupsEval cfg inits (digits am) (digits gm) order (s.prog :: ws)
-        (s, resLine r (fun hs => showGroupDests cfg (digits am) order hs))
+          | none => (List.range 10).filter (fun d => (digits am).contains d || (digits gm).contains d || (digits sm).contains d)
+        if am.length ≠ cfg.main.args.length || gm.length ≠ cfg.main.globals.length || sm.length ≠ cfg.subs.length then (s, "bad-op") else
+        let r := groupsEvalT cfg inits (digits am) (digits sm) (digits gm) order (s.prog :: ws)
+        (s, resLine r (fun ms => showGroupT cfg (digits am) (digits sm) order ms))
       | _, _ => (s, "bad-op")
   | _ => (s, "bad-op")
 
